@@ -210,7 +210,7 @@ func checkC06(r *Run) {
 		planned, err := PlanSQL(bubbleCtx(), sql, map[string]*SimTable{}, optimize)
 		if err != nil {
 			oc.planErr = err
-			oc.fired = disk.Fired["read_error"]
+			oc.fired = disk.FiredCount("read_error")
 			return oc
 		}
 		produce := func(ctx execution.ProduceContext, rec execution.Record) error {
@@ -221,7 +221,7 @@ func checkC06(r *Run) {
 			func(en []string) int { return 0 }, 1000)
 		oc.runErr = g.Err
 		oc.deadlock = g.Deadlock || !g.Finished
-		oc.fired = disk.Fired["read_error"]
+		oc.fired = disk.FiredCount("read_error")
 		return oc
 	}
 
